@@ -13,6 +13,24 @@ ASSUME = ("Trusted base: g++ 12.2 / clang++ 14 (front end = interpreter of the t
           "vf/model + harness/*.hh, which contains no Au code. ")
 
 CHECKS = {
+    "C05": dict(level="exploration", technique="bounded exhaustive value enumeration over all 11x11 rep pairs vs a compositional stage oracle (128-bit integers, exact float castability), every-event UBSan observer",
+                text="1640 compiling (source rep, target rep, factor) instances: all values of 8/16-bit sources, stage-limit windows for 32/64-bit, a structured "
+                     "floating alphabet (every power of two with neighbours, limits and their pre-images +-64 ulp, NaNs, infinities, denormals), and in thorough all 2^32 "
+                     "float patterns into the integral targets. The oracle mirrors the documented three stages (cast to common type, scale, cast to target) without Au "
+                     "code; the real conversion is executed only where every stage is defined, under clang UBSan with handlers that count every event.",
+                ref="DESIGN.md §6 C05"),
+    "C15": dict(level="exploration", technique="bounded exhaustive value enumeration and accept/reject probe grids for the unit-aware math functions vs exact rational / 90-digit arithmetic",
+                text="Rounding: 29 unit pairs x reps x 12 function forms over every integer in +-2^16, every half-integer and ulp-neighbourhoods, against the exact value "
+                     "with an explicit floating-error don't-care band. Inversion: all 625x2 prefix pairs x 6 reps as accept/reject probes (threshold 10^6), trunc(K/x) over "
+                     "+-2^16 and the round trip for all n in 1..1000. Trig/cmath wrappers against the std function on exactly converted operands, incl. both orders of "
+                     "(narrow, wide) rep pairs with the representability precondition evaluated by the oracle.",
+                ref="DESIGN.md §6 C15"),
+    "C20": dict(level="exploration", technique="differential enumeration over packaging selections, stand-alone headers and an API-surface family across six compiler configurations",
+                text="Single-file header for every selection of at most one unit/constant header and the full selection x {io, noio} (thorough: all pairs, all-but-one): "
+                     "compiles with no other Au file on the path, twice, from two linked TUs, and a selection-specific program prints the same as against the multi-header "
+                     "tree. Every non-test header compiled stand-alone (twice), every *_fwd.hh followed by its definition with uses of the declared names. 43 API statements "
+                     "x 11 reps: accept/reject vector and run-time output must be identical under g++/clang++ x C++14/17/20.",
+                ref="DESIGN.md §6 C20"),
     "C01": dict(level="exploration", technique="exhaustive enumeration of (dimension-class pair x operation) programs as accept/reject probes through the C++ front end",
                 text="Every ordered pair of distinct dimension classes (representatives include the near-misses m vs m^2, m/s vs m/s^2, rad vs unitless, N*m vs J, "
                      "Hz vs 1/s vs kBq) times every operation named in the statement, in Quantity and QuantityPoint form, is compiled and must be rejected; the same "
